@@ -66,6 +66,11 @@ def lifecycle_set_follows(ck, C):
             ok = T.resolves_to_call(b2, cs.args[0], fs)
             if not ok and b2.qual == "TokenFactory::registration_token":
                 ok = True
+            if not ok:
+                # the `token` field of a SourceList slot (what `RegistrationToken { inner: slot.token }` reads, too):
+                # slot tokens never carry a sub-id (vacant_entry builds them with TokenInner::new / increment_version)
+                aps = b2.resolve(cs.args[0])
+                ok = bool(aps) and all(r[0] == "call" and ".token" in p and (b2.call_at(r[1]).path or "").startswith("list::SourceList") for r, p in aps)
             ck.verdict(ok, C, "T6-provenance", b2, "RegistrationToken::new(sub-id-free)", "registration tokens are built from a token whose sub-id was cleared", "a RegistrationToken is built from a token that still carries a sub-id: the lifecycle set compares whole tokens, so an entry registered under sub-id 0 is not removed (a disabled/removed multi-token source keeps receiving its hooks; unreachable!() after removal)", site=b2.where(cs.bb))
     # adds after success must be on the success edge only (T3, edge specific)
     dunreg = ck.body(C, "<RefCell<DispatcherInner> as EventDispatcher>::unregister")
@@ -256,8 +261,24 @@ def run(ck):
         ck.verdict(rt is not None and T.resolves_to_call(b, rt, [r2[0]]), "5", "T6-provenance", b, "iterator-filters-by-iterated-token", "the iterator filters by the token of the source being notified", "the iterator's filter token is not the iterated lifecycle token", site=b.where(i))
     nx = ck.body("5", "<EventIterator as Iterator>::next")
     ssa = T.calls(nx, name="same_source_as")
-    somes = [(i, j, st) for i, j, st in nx.statements() if st["s"] == "assign" and st["pl"]["l"] == 0 and st["rv"]["r"] == "agg" and st["rv"].get("variant") == "Some" and not nx.is_cleanup(i)]
-    if not ssa or not somes:
+    somes = [(i, j, st) for i, j, st in nx.statements() if st["s"] == "assign" and st["pl"]["l"] in T.ret_locals(nx) and st["rv"]["r"] == "agg" and st["rv"].get("variant") == "Some" and not nx.is_cleanup(i)]
+    finds = [cs for cs in T.calls(nx, name="find") if (cs.trait or "") == "std::iter::Iterator" and not nx.is_cleanup(cs.bb) and T.path_has(nx, cs.args[0], ".inner")]
+    if finds and not somes:
+        # the same filter spelled self.inner.find(|e| e.token.inner.same_source_as(wanted)).map(..)
+        from props import common as _c
+
+        for fd in finds:
+            ok = T.tainted_by_call(nx, {"c": {"l": 0, "p": [], "t": 0}}, [fd.bb])
+            preds = T.closure_bodies_passed(nx, fd)
+            ok = ok and bool(preds)
+            for cb in preds:
+                g = [c for c in T.calls(cb, name="same_source_as") if not cb.is_cleanup(c.bb)]
+                caps = _c.closure_captures(nx, cb)
+                returned = bool(g) and all(not c.dest["p"] and c.dest["l"] in T.ret_locals(cb) for c in g) and T.t2_all_exits(cb, [0], [c.bb for c in g]) is None
+                tok = any(T.path_has(cb, a, "." + n) and any(".registration_token" in pth for r, pth in aps) for c in g for a in c.args for n, (loc, aps, _) in caps.items())
+                ok = ok and returned and tok
+            ck.verdict(ok, "5", "T4-guarded-by", nx, "yield-only-if-same-source", "next() yields what Iterator::find returns for the predicate same_source_as(registration_token)", "EventIterator::next can yield an event of another source", site=nx.where(fd.bb))
+    elif not ssa or not somes:
         ck.anchor_missing("5", "T4-guarded-by", "EventIterator::next: same_source_as test and Some(..) yield")
     else:
         for i, j, st in somes:
